@@ -399,9 +399,17 @@ pub unsafe extern "C" fn public_key_serialize(
     }
     let kp = kp.unwrap();
 
+    // the documented buffer is 32 bytes: a key that does not serialize to 32 bytes
+    // (secp256r1 public keys take 33) is reported instead of overrunning it
+    let bytes = kp.0.to_bytes();
+    if bytes.len() != 32 {
+        update_last_error(Error::InvalidArgument);
+        return 0;
+    }
+
     let output_slice = std::slice::from_raw_parts_mut(buffer_ptr, 32);
 
-    output_slice.copy_from_slice(&kp.0.to_bytes()[..]);
+    output_slice.copy_from_slice(&bytes[..]);
     32
 }
 
